@@ -400,14 +400,16 @@ def insideAll (t : Tree) : Nat → Id → Int → Int → Bool
 
 /-- What the terminal cursor must be after a flush: `none` = hidden, `some (line, col, shape)` = visible there. -/
 def cursorSpec (t : Tree) : Option (Int × Int × Int) :=
-  let e := chainEnd t (treeFuel t) 0
-  match t.wins[e]? with
+  match t.wins[chainEnd t (treeFuel t) 0]? with
   | none => none
   | some w =>
-    let (al, ac) := absCell t (treeFuel t) e w.cursor.line w.cursor.col
-    if w.isFocused && allVisible t (treeFuel t) e && w.cursor.visible &&
-       insideAll t (treeFuel t) e w.cursor.line w.cursor.col &&
-       (owner t al ac == some e) then some (al, ac, w.cursor.shape)
+    if w.isFocused && allVisible t (treeFuel t) (chainEnd t (treeFuel t) 0) && w.cursor.visible &&
+       insideAll t (treeFuel t) (chainEnd t (treeFuel t) 0) w.cursor.line w.cursor.col &&
+       (owner t (absCell t (treeFuel t) (chainEnd t (treeFuel t) 0) w.cursor.line w.cursor.col).1
+                (absCell t (treeFuel t) (chainEnd t (treeFuel t) 0) w.cursor.line w.cursor.col).2
+          == some (chainEnd t (treeFuel t) 0)) then
+      some ((absCell t (treeFuel t) (chainEnd t (treeFuel t) 0) w.cursor.line w.cursor.col).1,
+            (absCell t (treeFuel t) (chainEnd t (treeFuel t) 0) w.cursor.line w.cursor.col).2, w.cursor.shape)
     else none
 
 /-- The terminal cursor agrees with a specification value. -/
